@@ -86,6 +86,11 @@ fn viol(x: &str, cfg: Cfg, origin: &str, oracle: &str, detail: String, extra: se
 
 /// Judge one measurement. Returns violation detail if any.
 pub fn judge(m: &Measure) -> Option<(&'static str, String)> {
+    judge_conversions(m).or_else(|| judge_alloc(m))
+}
+
+/// Primary monitor: node conversions against syntax nodes.
+pub fn judge_conversions(m: &Measure) -> Option<(&'static str, String)> {
     let total = m.total();
     if total > K_NUM * m.nodes + K_SLACK {
         return Some((
@@ -103,6 +108,12 @@ pub fn judge(m: &Measure) -> Option<(&'static str, String)> {
             ),
         ));
     }
+    None
+}
+
+/// Secondary monitor for corpus and flat-family items (shallow nesting): bytes requested from the allocator during the call,
+/// against input + output size. Not used along depth ladders: cumulative allocation is not peak memory (see run_ladder).
+pub fn judge_alloc(m: &Measure) -> Option<(&'static str, String)> {
     let budget = KA * (m.in_len + m.out_len) as u64 + KA_SLACK;
     if m.alloc > budget {
         return Some((
@@ -151,6 +162,7 @@ pub fn run_ladder(family: usize, widths: &[usize], max_depth: usize, acc: &mut A
     for &w in widths {
         let cfg = Cfg::new(w, 2, false);
         let mut prev_cpu: Vec<u64> = vec![];
+        let mut prev_alloc: Vec<(usize, u64)> = vec![];
         for &d in LADDER_DEPTHS.iter().filter(|&&d| d <= max_depth) {
             let text = if family >= 1000 { gen::nest_mixed(family as u64, d) } else { gen::nest_pure(family, d) };
             let Some(m) = measure(&text, cfg) else {
@@ -165,7 +177,29 @@ pub fn run_ladder(family: usize, widths: &[usize], max_depth: usize, acc: &mut A
             acc.max("max_ladder_depth", d as u64);
             acc.max("max_cpu_us_ladder_point", m.cpu_ns / 1000);
             let extra = json!({"family": family, "depth": d});
-            if let Some((oracle, detail)) = judge(&m) {
+            // Allocation along a ladder is judged by growth, not by an absolute linear budget: the statement tolerates
+            // quadratic time and memory, and the bytes *requested* over a call over-count peak memory (nested closures
+            // with named-parameter defaults request ~d^3 bytes while time and peak RSS grow ~d^2). Exponential growth
+            // multiplies the requested bytes per step far beyond the cube of the depth ratio.
+            if let Some(&(pd, pa)) = prev_alloc.last() {
+                let ratio = d as f64 / pd as f64;
+                let bound = 1.5 * ratio.powi(3) * pa as f64 + 262_144.0;
+                if m.alloc as f64 > bound {
+                    let short = if family >= 1000 { gen::nest_mixed(family as u64, d.min(12)) } else { gen::nest_pure(family, d.min(12)) };
+                    acc.violations.push(viol(
+                        &short,
+                        cfg,
+                        &format!("G-NEST family {} depth {}", family, d),
+                        "alloc-growth",
+                        format!("bytes allocated grew from {} at depth {} to {} at depth {}: more than 1.5 x (depth ratio)^3", pa, pd, m.alloc, d),
+                        extra,
+                    ));
+                    return;
+                }
+            }
+            prev_alloc.push((d, m.alloc));
+            acc.max("max_alloc_growth_per_step_x1000", prev_alloc.len().checked_sub(2).map(|i| m.alloc * 1000 / prev_alloc[i].1.max(1)).unwrap_or(0));
+            if let Some((oracle, detail)) = judge_conversions(&m) {
                 let short = if family >= 1000 { gen::nest_mixed(family as u64, d.min(12)) } else { gen::nest_pure(family, d.min(12)) };
                 acc.violations.push(viol(&short, cfg, &format!("G-NEST family {} depth {}", family, d), oracle, format!("depth {}: {}", d, detail), extra));
                 return;
